@@ -11,10 +11,10 @@ import (
 // every decision (menu size, option costs) so that the explorer can enumerate
 // the alternatives.
 type recChooser struct {
-	prefix  []int
-	choices []int
-	ns      []int
-	desc    []func() []string
+	prefix   []int
+	choices  []int
+	ns       []int
+	desc     []func() []string
 	keepDesc bool
 }
 
@@ -34,11 +34,11 @@ func (c *recChooser) Choose(d vrt.Decision) int {
 // Explorer enumerates every choice sequence of an execution body whose total
 // preemption cost is <= Bound (depth-first, prefix replay on fresh instances).
 type Explorer struct {
-	Bound    int
-	MaxExec  int64 // cap on executions per configuration (0 = none)
-	Horizon  int
-	Execs    int64
-	Capped   bool
+	Bound     int
+	MaxExec   int64 // cap on executions per configuration (0 = none)
+	Horizon   int
+	Execs     int64
+	Capped    bool
 	Decisions int64
 
 	// Subtree sharding (big configurations): every shard runs the root execution (all default
